@@ -18,7 +18,7 @@ RULE = ("pairs (q, structural edit of q) from the query generator's own derivati
         "tree vs copy, repetitive trees; non-trivial = both sides have >= 10 non-identifier nodes; distinct = distinct (source sql, target sql)")
 ASSUMPTIONS = ["Identifier nodes are not diffed (documented): trees that differ only in identifiers are outside 'delta empty iff equal' (listed finding)"]
 SPEC = {
-    "quick": {"shards": 16, "time_cap": 150, "pairs": 12000},
+    "quick": {"shards": 16, "time_cap": 400, "pairs": 12000},
     "thorough": {"shards": 16, "time_cap": 1500, "pairs": 80000},
 }
 
